@@ -2,10 +2,23 @@
 dependency closure of the property."""
 
 PROPS = {
+    "C04": dict(
+        modules=["contracts.number", "contracts.strings", "contracts.writer", "contracts.reader", "lemmas.c04"],
+        title="writer -> reader round trip",
+        trusted=["cp1252 tables E, D (external codec; pointwise, total, stateless); the image of a string is D o E"],
+        assumptions=["sequential composition of the per-pair frame lemmas is an induction on the number of "
+                     "writes whose step is the lemmas themselves (meta-step)"],
+    ),
     "C05": dict(
         modules=["contracts.number", "contracts.strings", "contracts.reader"],
         title="EoReader chunked-reading model",
         trusted=["cp1252 decode table D (external codec; pointwise, total, stateless)"],
+    ),
+    "C06": dict(
+        modules=["contracts.number", "contracts.strings", "contracts.writer", "contracts.reader", "lemmas.c06"],
+        title="chunk isolation",
+        assumptions=["induction over the list of chunks: step lemmas (2)-(4) are proved; the induction itself is "
+                     "the meta-step", "padded strings are excluded by the statement (padding is 0xFF)"],
     ),
     "C07": dict(
         modules=["contracts.number", "lemmas.c07"],
